@@ -613,6 +613,19 @@ Fixpoint has_call (e : cx) {struct e} : bool :=
   | XGen _ it ifs => has_call it || existsb has_call ifs
   end.
 
+(* core.has_side_effect with the whitelist of parsing.safe_callable_names, on this fragment: a call of an
+   unknown function (the builtins of `bi` are whitelisted; map / filter with a lambda are not) *)
+Fixpoint effect (e : cx) {struct e} : bool :=
+  match e with
+  | XConst _ | XName _ => false
+  | XCall _ _ | XMap _ _ _ | XFilter _ _ _ _ => true
+  | XBi _ args | XSeq _ args | XDict args | XBool _ args => existsb effect args
+  | XBin _ l r | XKV l r => effect l || effect r
+  | XNeg e1 | XNot e1 | XDStar e1 => effect e1
+  | XComp _ elt dval gens => effect elt || effect dval || existsb effect gens
+  | XGen _ it ifs => effect it || existsb effect ifs
+  end.
+
 (* =========================================================================================== *)
 (* Rule models (the repaired code) *)
 
@@ -713,7 +726,8 @@ Definition site_dictcomp (after : nat -> bool) (s1 s2 : st) : option st :=
   | SAssign x value, Some (cl, SSetItem x' k v) =>
       let gens := map (gen_of true) cl in
       if Nat.eqb x' x && negb (mentions x k) && negb (mentions x v) && negb (existsb (mentions x) gens)
-         && dead_after after (clause_targets cl) then
+         && dead_after after (clause_targets cl)
+         && negb (effect k && effect v) then      (* d[k] = v evaluates v first, {k: v ..} evaluates k first *)
         let comp := XComp CDict k v gens in
         match value with
         | XDict [] => Some (SAssign x comp)
@@ -797,11 +811,10 @@ Definition site_nested (fresh : nat) (after : nat -> bool) (s : st) : option st 
       let go (bound : list nat) (r : recv) (e : cx) :=
         if dead_after after bound
            && negb (recv_mentions_any r bound)
-           && negb (existsb has_call (recv_exprs r))
-           && negb (match r with
-                    | RName x => mentions x e || existsb (mentions x) gens
-                    | RSub _ _ => false
-                    end)
+           && (match r with
+               | RName x => negb (mentions x e || existsb (mentions x) gens)
+               | RSub _ _ => false          (* a subscripted container is looked up once per iteration *)
+               end)
         then Some (SMeth r MExtend
                      (XComp CGen (XName fresh) dummy (gens ++ [XGen (TName fresh) e []])))
         else None in
@@ -905,6 +918,7 @@ Definition merge_clause (k : ckind) (elt : cx) (others : list cx) (g : cx) : opt
                        | CSet, XName x' | CDict, XName x' => Nat.eqb x x'
                        | _, _ => false
                        end) then None
+      else if (match ik, k with CSet, CDict => true | _, _ => false end) then None
       else if existsb (fun n => negb (Nat.eqb n y) && (existsb (mentions n) others || Nat.eqb n x))
                       (gens_targets igens) then None
       else if existsb (mentions y) (first_iter igens) then None
